@@ -16,7 +16,7 @@
    dump  = 0 (query gone) | 1 cands pend queried resps pr found recq provs  (count-prefixed lists) *)
 From Coq Require Import List NArith Bool.
 From V.common Require Import Wire.
-From V.C15 Require Import Model.
+From V.C15 Require Import Model Engine.
 Import ListNotations.
 Open Scope N_scope.
 
@@ -131,7 +131,7 @@ Fixpoint run_trace (eng : engine) (es : list gevent) : list N :=
 Definition start (qs : list qspec) : engine :=
   map (fun q => (q_cfg q, init (q_cfg q) (q_seeds q))) qs.
 
-Definition run_case (l : list N) : list N :=
+Definition run_case1 (l : list N) : list N :=
   match decode_case l with
   | Some k => 1 :: run_trace (start (g_qs k)) (g_events k)
   | None => [0]
@@ -360,7 +360,7 @@ Fixpoint judge_all (xs : list jq) (es : list gevent) (acts : list gaction) : boo
   | _, _ => false
   end.
 
-Definition prop_ok (case trace : list N) : bool :=
+Definition prop_ok1 (case trace : list N) : bool :=
   match decode_case case, trace with
   | Some k, 1 :: body =>
       match pall (p_steps (length (g_qs k)) (length (g_events k))) body with
@@ -372,6 +372,336 @@ Definition prop_ok (case trace : list N) : bool :=
       end
   | None, [0] => true
   | _, _ => false
+  end.
+
+(* ================================================================== engine cases (first number 10)
+
+   The whole QueryEngine over all eight query types (coq/C15/Engine.v):
+     case   = 10 k alpha timeout local npeers dist*  nevents xevent*
+     xevent = 0 now ch                                              next_action (ch = 0: returned None; q+1: query q acted)
+            | 1 q t qtag qn known npeers peer* nkprov (peer naddr addr* )*   start_* (t = index of the QueryType variant)
+            | 2 q p mk recflag recid npeers peer* nprov (peer naddr addr* )*  register_response, mk = index of the message kind
+                                                                    (recflag: 0 none, 2 expired, otherwise a live record)
+            | 3 q p | 4 q p | 5 q p | 6 q p | 7 q p                 response failure / send success / send failure /
+                                                                    peer failure / next_peer_action
+     trace  = 1 (xaction xdump)*
+     xaction = 0 | 1 q p mk | 2 q | 3 q n peer* | 4 q n peer* qtag qn | 5 q | 6 q n peer* qtag qn | 7 q | 8 q p r | 9 q
+             | 10 q n (peer naddr addr* )* | 11 p mk
+     xdump  = nlive (q t body)*   sorted by q;  body = cands pend queried resps found recq provs (lookups)
+                                                      | (nothing) (PutRecordToPeers) | pend succ need (send phases) *)
+
+Definition qtype_idx (t : qtype) : N :=
+  match t with
+  | TFindNode => 0 | TPutRecord => 1 | TPutRecordToPeers => 2 | TPutRecordToFoundNodes => 3
+  | TGetRecord => 4 | TAddProvider => 5 | TAddProviderToFoundNodes => 6 | TGetProviders => 7
+  end.
+Definition mkind_idx (m : mkind) : N :=
+  match m with MKFindNode => 0 | MKPutValue => 1 | MKGetRecord => 2 | MKAddProvider => 3 | MKGetProviders => 4 end.
+Definition qtype_of_n (x : N) : option qtype := nth_error all_qtypes (N.to_nat x).
+Definition mkind_of_n (x : N) : option mkind := nth_error all_mkinds (N.to_nat x).
+Definition qtype_eqb (a b : qtype) : bool := qtype_idx a =? qtype_idx b.
+Definition mkind_eqb (a b : mkind) : bool := mkind_idx a =? mkind_idx b.
+
+(* a quorum travels as (tag, n); n only matters for N(n) *)
+Definition canon_qn (qtag qn : N) : N * N :=
+  match qtag with 0 => (0, 0) | 1 => (1, 0) | _ => (2, qn) end.
+
+Definition p_xevent : parser xevent :=
+  let* tag := pN in
+  match tag with
+  | 0 => let* now := pN in let* ch := pN in pret (XNext now ch)
+  | 1 => let* q := pN in let* t := pN in let* qtag := pN in let* qn := pN in let* known := pN in
+         let* peers := plist pN in let* kprov := plist p_entry in
+         match qtype_of_n t with
+         | Some t' => let '(a, b) := canon_qn qtag qn in pret (XStart q t' a b known peers kprov)
+         | None => pfail
+         end
+  | 2 => let* q := pN in let* p := pN in let* mk := pN in let* flag := pN in let* id := pN in
+         let* peers := plist pN in let* provs := plist p_entry in
+         match mkind_of_n mk with
+         | Some mk' => pret (XResp q p mk' (mkReply peers
+                          (if flag =? 0 then None else Some (id, flag =? 2)) provs))
+         | None => pfail
+         end
+  | 3 => let* q := pN in let* p := pN in pret (XFail q p)
+  | 4 => let* q := pN in let* p := pN in pret (XSendOk q p)
+  | 5 => let* q := pN in let* p := pN in pret (XSendFail q p)
+  | 6 => let* q := pN in let* p := pN in pret (XPeerFail q p)
+  | 7 => let* q := pN in let* p := pN in pret (XPeerAct q p)
+  | _ => pfail
+  end.
+
+Definition p_xcase : parser (gcfg * list xevent) :=
+  let* k := pN in let* alpha := pN in let* timeout := pN in let* local := pN in
+  let* dists := plist pN in
+  let* evs := plist p_xevent in
+  pret (mkGc k alpha timeout local (fun p => nth (N.to_nat p) dists 0), evs).
+
+Definition enc_xaction (a : xaction) : list N :=
+  match a with
+  | XNone => [0]
+  | XSend q p mk => [1; q; p; mkind_idx mk]
+  | XFailed q => [2; q]
+  | XFindNodeOk q l => [3; q] ++ enc_ns l
+  | XPutToFound q l a b => [4; q] ++ enc_ns l ++ [a; b]
+  | XPutOk q => [5; q]
+  | XAddProvToFound q l a b => [6; q] ++ enc_ns l ++ [a; b]
+  | XAddProvOk q => [7; q]
+  | XPartial q p r => [8; q; p; r]
+  | XRecDone q => [9; q]
+  | XProvDone q l => [10; q] ++ enc_entries l
+  | XPeerMsg p mk => [11; p; mkind_idx mk]
+  end.
+
+Definition xdump_q (kv : N * qstate) : list N :=
+  fst kv ::
+  match snd kv with
+  | QL t _ _ _ _ _ s =>
+      [qtype_idx t] ++ enc_ns (map snd (cands s)) ++ enc_ns (sort_by (fun x => x) (map fst (pend s))) ++
+      enc_ns (sort_by (fun x => x) (queried s)) ++ enc_ns (map snd (resps s)) ++ [found s] ++
+      enc_ns (map fst (recq s)) ++ enc_ns (map fst (provs s))
+  | QM _ _ _ => [qtype_idx TPutRecordToPeers]
+  | QT t pd sc nd => [qtype_idx t] ++ enc_ns (sort_by (fun x => x) pd) ++ [sc; nd]
+  end.
+Definition xdump (e : xeng) : list N :=
+  N.of_nat (length e) :: flat_map xdump_q (sort_by (fun kv : N * qstate => fst kv) e).
+
+Fixpoint xrun_trace (g : gcfg) (e : xeng) (evs : list xevent) : list N :=
+  match evs with
+  | [] => []
+  | ev :: t => let '(e1, a) := xstep g e ev in enc_xaction a ++ xdump e1 ++ xrun_trace g e1 t
+  end.
+
+Definition run_xcase (l : list N) : list N :=
+  match pall p_xcase l with
+  | Some (g, evs) => 1 :: xrun_trace g [] evs
+  | None => [0]
+  end.
+
+(* ---- decoding an engine trace ---- *)
+Definition p_xaction : parser xaction :=
+  let* tag := pN in
+  match tag with
+  | 0 => pret XNone
+  | 1 => let* q := pN in let* p := pN in let* mk := pN in
+         match mkind_of_n mk with Some mk' => pret (XSend q p mk') | None => pfail end
+  | 2 => let* q := pN in pret (XFailed q)
+  | 3 => let* q := pN in let* l := plist pN in pret (XFindNodeOk q l)
+  | 4 => let* q := pN in let* l := plist pN in let* a := pN in let* b := pN in pret (XPutToFound q l a b)
+  | 5 => let* q := pN in pret (XPutOk q)
+  | 6 => let* q := pN in let* l := plist pN in let* a := pN in let* b := pN in pret (XAddProvToFound q l a b)
+  | 7 => let* q := pN in pret (XAddProvOk q)
+  | 8 => let* q := pN in let* p := pN in let* r := pN in pret (XPartial q p r)
+  | 9 => let* q := pN in pret (XRecDone q)
+  | 10 => let* q := pN in let* l := plist p_entry in pret (XProvDone q l)
+  | 11 => let* p := pN in let* mk := pN in
+          match mkind_of_n mk with Some mk' => pret (XPeerMsg p mk') | None => pfail end
+  | _ => pfail
+  end.
+
+Definition p_xdump_q : parser unit :=
+  let* _q := pN in let* t := pN in
+  match qtype_of_n t with
+  | Some t' =>
+      match ctx_of t' with
+      | CMany => pret tt
+      | CTarget => let* _ := plist pN in let* _ := pN in let* _ := pN in pret tt
+      | _ => let* _ := plist pN in let* _ := plist pN in let* _ := plist pN in let* _ := plist pN in
+             let* _ := pN in let* _ := plist pN in let* _ := plist pN in pret tt
+      end
+  | None => pfail
+  end.
+
+Definition p_xsteps (n : nat) : parser (list xaction) :=
+  prep n (let* a := p_xaction in let* _ := plist p_xdump_q in pret a).
+
+(* ---- the oracle for engine cases: per live query id the property text is judged on the events addressed
+   to that id and the actions that carry it ---- *)
+Inductive jst :=
+| JL (t : qtype) (qtag qn : N) (c : cfg) (ls : bool) (o : ost)
+| JM (qtag qn : N) (peers : list N)
+| JT (t : qtype) (fl : list N) (succ need : N).
+
+Definition jeng := list (N * jst).
+Fixpoint jget (q : N) (e : jeng) : option jst :=
+  match e with [] => None | (q', x) :: t => if q' =? q then Some x else jget q t end.
+Definition jdel (q : N) (e : jeng) : jeng := filter (fun kv => negb (fst kv =? q)) e.
+Definition jset (q : N) (x : jst) (e : jeng) : jeng := jdel q e ++ [(q, x)].
+
+(* an engine action about lookup q of type t, in the single-query vocabulary; None = not acceptable *)
+Definition to_action (t : qtype) (qtag qn q : N) (a : xaction) : option action :=
+  match a with
+  | XSend q' p mk => if (q' =? q) && mkind_eqb mk (req_of t) then Some (ASend p) else None
+  | XFailed q' => if q' =? q then Some AFailed else None
+  | XFindNodeOk q' l => if (q' =? q) && qtype_eqb t TFindNode then Some (AFound l) else None
+  | XPutToFound q' l a b =>
+      if (q' =? q) && qtype_eqb t TPutRecord && (a =? qtag) && (b =? qn) then Some (AFound l) else None
+  | XAddProvToFound q' l a b =>
+      if (q' =? q) && qtype_eqb t TAddProvider && (a =? qtag) && (b =? qn) then Some (AFound l) else None
+  | XPartial q' p r => if q' =? q then Some (APartial p r) else None
+  | XRecDone q' => if q' =? q then Some ARecDone else None
+  | XProvDone q' l => if q' =? q then Some (AProvDone l) else None
+  | _ => None
+  end.
+
+Definition jstart (g : gcfg) (t : qtype) (qtag qn known : N) (peers : list N) (kprov : list (N * list N)) : jst :=
+  match ctx_of t with
+  | CMany => JM qtag qn peers
+  | CTarget => JT t (dedup peers) 0 (need_track qtag qn (N.of_nat (length peers)))
+  | _ => JL t qtag qn (lookup_cfg g t qtag qn known kprov) (mem (g_local g) peers)
+            (mkO [] [] [] peers [] [] [] false)
+  end.
+
+(* an event for a lookup, judged by the single-query oracle *)
+Definition jl_event (x : jst) (e : event) : option jst :=
+  match x with
+  | JL t qtag qn c ls o =>
+      match judge c ls o e ANone with Some o' => Some (JL t qtag qn c ls o') | None => None end
+  | _ => Some x
+  end.
+
+(* a poll of query q that returned nothing *)
+Definition j_idle (now : N) (x : jst) : option jst :=
+  match x with
+  | JL _ _ _ _ _ _ => jl_event x (ENext now)
+  | JM _ _ _ => None                                   (* PutRecordToPeers must finish at its first poll *)
+  | JT _ fl _ _ => match fl with [] => None | _ => Some x end   (* nothing open: the send phase must finish *)
+  end.
+
+Fixpoint j_idle_all (now : N) (e : jeng) : option jeng :=
+  match e with
+  | [] => Some []
+  | (q, x) :: t =>
+      match j_idle now x, j_idle_all now t with
+      | Some x', Some t' => Some ((q, x') :: t')
+      | _, _ => None
+      end
+  end.
+
+Definition xaction_eqb (a b : xaction) : bool := nlist_eqb (enc_xaction a) (enc_xaction b).
+
+Definition j_acted (now q : N) (x : jst) (a : xaction) : option (option jst) :=   (* Some None = removed *)
+  match x with
+  | JL t qtag qn c ls o =>
+      match to_action t qtag qn q a with
+      | Some a' =>
+          match judge c ls o (ENext now) a' with
+          | Some o' => Some (if is_terminal a' then None else Some (JL t qtag qn c ls o'))
+          | None => None
+          end
+      | None => None
+      end
+  | JM qtag qn peers => if xaction_eqb a (XPutToFound q peers qtag qn) then Some None else None
+  | JT t fl succ need =>
+      match fl with
+      | [] =>
+          if xaction_eqb a (if need <=? succ
+                            then match t with TAddProviderToFoundNodes => XAddProvOk q | _ => XPutOk q end
+                            else XFailed q)
+          then Some None else None
+      | _ => None
+      end
+  end.
+
+Definition j_upd (q : N) (f : jst -> option jst) (e : jeng) : option jeng :=
+  match jget q e with
+  | Some x => match f x with Some x' => Some (jset q x' e) | None => None end
+  | None => Some e
+  end.
+
+Definition xjudge (g : gcfg) (e : jeng) (ev : xevent) (a : xaction) : option jeng :=
+  match ev with
+  | XStart q t qtag qn known peers kprov =>
+      match a with XNone => Some (jset q (jstart g t qtag qn known peers kprov) e) | _ => None end
+  | XNext now 0 => match a with XNone => j_idle_all now e | _ => None end
+  | XNext now ch =>
+      let q := ch - 1 in
+      match jget q e with
+      | Some x =>
+          match j_acted now q x a with
+          | Some (Some x') => Some (jset q x' e)
+          | Some None => Some (jdel q e)
+          | None => None
+          end
+      | None => None                                   (* an action for a query that is not live *)
+      end
+  | XResp q p mk r =>
+      match a with
+      | XNone => j_upd q (fun x => jl_event x (if accepts (match x with JL t _ _ _ _ _ => t | _ => TPutRecordToPeers end) mk
+                                              then EResp p r else EFail p)) e
+      | _ => None
+      end
+  | XFail q p => match a with XNone => j_upd q (fun x => jl_event x (EFail p)) e | _ => None end
+  | XSendOk q p =>
+      match a with
+      | XNone => j_upd q (fun x => match x with
+                                   | JT t fl succ need =>
+                                       Some (if mem p fl then JT t (nremove p fl) (succ + 1) need else x)
+                                   | _ => jl_event x (ENoop p)
+                                   end) e
+      | _ => None
+      end
+  | XSendFail q p =>
+      match a with
+      | XNone => j_upd q (fun x => match x with
+                                   | JT t fl succ need => Some (JT t (nremove p fl) succ need)
+                                   | _ => jl_event x (ENoop p)
+                                   end) e
+      | _ => None
+      end
+  | XPeerFail q p =>
+      match a with
+      | XNone => j_upd q (fun x => match x with
+                                   | JT t fl succ need => Some (JT t (nremove p fl) succ need)
+                                   | _ => jl_event x (EFail p)
+                                   end) e
+      | _ => None
+      end
+  | XPeerAct q p =>
+      match a with
+      | XNone => Some e
+      | XPeerMsg p' mk =>
+          match jget q e with
+          | Some (JL t _ _ _ _ o) =>
+              if (p' =? p) && pmem p (o_fl o) && mkind_eqb mk (req_of t) then Some e else None
+          | _ => None
+          end
+      | _ => None
+      end
+  end.
+
+Fixpoint xjudge_all (g : gcfg) (e : jeng) (evs : list xevent) (acts : list xaction) : bool :=
+  match evs, acts with
+  | [], [] => true
+  | ev :: evs', a :: acts' =>
+      match xjudge g e ev a with
+      | Some e' => xjudge_all g e' evs' acts'
+      | None => false
+      end
+  | _, _ => false
+  end.
+
+Definition prop_xok (case trace : list N) : bool :=
+  match pall p_xcase case, trace with
+  | Some (g, evs), 1 :: body =>
+      match pall (p_xsteps (length evs)) body with
+      | Some acts => xjudge_all g [] evs acts
+      | None => false
+      end
+  | None, [0] => true
+  | _, _ => false
+  end.
+
+Definition run_case (l : list N) : list N :=
+  match l with
+  | 10 :: t => run_xcase t
+  | _ => run_case1 l
+  end.
+
+Definition prop_ok (case trace : list N) : bool :=
+  match case with
+  | 10 :: t => prop_xok t trace
+  | _ => prop_ok1 case trace
   end.
 
 (* F-C15a was repaired in the code (fix commit), so there is no known-finding class. *)
